@@ -322,7 +322,12 @@ func WindowFrameSet(partition Partition, expr parser.AnalyticClause) []WindowFra
 }
 
 func windowValues(ctx context.Context, scope *ReferenceScope, frame WindowFrame, partition Partition, expr parser.AnalyticFunction, valueCache map[int]value.Primary) ([]value.Primary, error) {
-	values := make([]value.Primary, 0, frame.High-frame.Low+1)
+	valuesCap := frame.High - frame.Low + 1
+	if valuesCap < 0 {
+		// an empty frame, e.g. ROWS BETWEEN CURRENT ROW AND 2 PRECEDING
+		valuesCap = 0
+	}
+	values := make([]value.Primary, 0, valuesCap)
 
 	anScope := scope.CreateScopeForAnalytics()
 	for i := frame.Low; i <= frame.High; i++ {
